@@ -22,7 +22,7 @@ theorem nodeFn_eq (p : Parser) (c : CallOpts) (st : PS) (l : Lbl) :
     nodeFn p c st l = nodeO (loptsOf p c) st l := by
   obtain ⟨sk, pre, gen⟩ := c
   cases p <;> cases sk <;> cases pre <;> cases l <;>
-    simp [nodeFn, loptsOf, nodeO, ntNodeid, n3AnonymousNode, xmlNode, trixGetBnode, jsonldNode, hextNode,
+    simp [nodeFn, loptsOf, nodeO, ntNodeid, n3AnonymousNode, xmlNode, trixGetBnode, jsonldNode, hextNode, patchNode,
       getOrNew_eq, keepLabel, wrapT, skolT, nodeid]
 
 theorem emitF_congr {nf nf' : PS → Lbl → PS × T} (h : ∀ st l, nf st l = nf' st l) (gen : Bool) (into : T) (doc : Doc) (st : PS) :
@@ -394,5 +394,30 @@ theorem hasNode_qrenO_sk {o : LOpts} (hsk : o.sk = true) {σ : Lbl → Nat} {int
   · cases g with
     | none => exact h
     | some t => exact absurd h (key t)
+
+/-! ### RDF Patch -/
+
+theorem patchNode_eq (st : PS) (l : Lbl) : patchNode st l = nodeO ⟨.verbatim, false, true⟩ st l :=
+  nodeFn_eq .patch CallOpts.default st l
+
+/-- a patch of `A` rows only is the `BNode(label)` parser of `Model.lean` reading those statements -/
+theorem patchRun_adds (dflt : T) (doc : Doc) : ∀ (st : PS) (qs : List Quad),
+    patchRun dflt st qs (doc.map (fun q => (POp.add, q))) =
+      ((emit .verbatim dflt st doc).1, addAll qs (emit .verbatim dflt st doc).2) := by
+  induction doc with
+  | nil => intro st qs; rfl
+  | cons q rest ih =>
+    intro st qs
+    have hq : quadF patchNode true dflt st q = ((quad .verbatim dflt st q).1, some (quad .verbatim dflt st q).2) := by
+      have h1 := emitO_plain .verbatim dflt [q] st
+      have hc := emitF_congr (fun st l => patchNode_eq st l) true dflt [q] st
+      simp only [emitO] at h1
+      rw [← hc] at h1
+      simp only [emitF, emit] at h1
+      rw [quadF_keep (by simp)] at h1 ⊢
+      simp only [consOpt, Prod.mk.injEq, List.cons.injEq, and_true] at h1
+      rw [h1.1, h1.2]
+    simp only [List.map_cons, patchRun, hq, emit, addAll]
+    exact ih _ _
 
 end RV.C12
